@@ -156,7 +156,8 @@ class ArrayHistory(Engine):
                     'by': rng.choice(['handle', 'handle', 'path', 'strpath'])}
         if k == 'truncate_bad':
             return {'op': 'truncate', 'index': rng.choice([1, 0, -1, 2]),
-                    'itype': rng.choice(['float', 'npint64', 'none', 'str', 'npint32', 'list']),
+                    # NumPy integers are not generated: whether they count as 'an int' is not for the check to decide
+                    'itype': rng.choice(['float', 'none', 'str', 'list']),
                     'by': 'handle'}
         if k == 'mode':
             return {'op': 'mode', 'to': rng.choice(['r', 'r+', 'r+'])}
